@@ -317,7 +317,7 @@ fn run_case(kind: &str, bytes: &[u8], m128: bool, fault: Fault, chunk: usize, eo
                 for p in 0..pages {
                     v.push_back(vec![0x76u8; if p + 1 == pages { last } else { 16384 }]);
                 }
-                emu.load_rom(VRomSet { pages: v }).map_err(|e| format!("{e:?}"))
+                emu.load_rom(VRomSet { pages: v, chunk: 0 }).map_err(|e| format!("{e:?}"))
             }
             "vtx" => {
                 match vtx::Vtx::load(std::io::Cursor::new(bytes.to_vec())) {
@@ -482,7 +482,9 @@ pub fn run(args: &Args) {
                 let mut p = 8;
                 while p + 8 <= b.len() {
                     let size = u32::from_le_bytes([b[p + 4], b[p + 5], b[p + 6], b[p + 7]]) as usize;
-                    offs.extend(p + 4..(p + 16).min(p + 8 + size).min(b.len()));
+                    // (every byte of the CPU chunk, the first 8 data bytes of the others)
+                    let lim = if &b[p..p + 4] == b"Z80R" { size } else { 8 };
+                    offs.extend(p + 4..(p + 8 + lim).min(p + 8 + size).min(b.len()));
                     p += 8 + size;
                 }
                 offs
@@ -499,6 +501,23 @@ pub fn run(args: &Args) {
             }
             sweep.push(("sna", sna48(&d48), false, (0..27).collect()));
             sweep.push(("sna", sna128(&d128), true, (0..27).chain(49179..49183).collect()));
+            // the same with interrupts enabled in every interrupt mode: the frames emulated after the load take interrupts
+            // with whatever the swept field has made of I, SP, the mode ...
+            for im in 0..3u8 {
+                let mut e48 = d48.clone();
+                e48.cpu.iff1 = true;
+                e48.cpu.iff2 = true;
+                e48.cpu.im = im;
+                let mut e128 = d128.clone();
+                e128.cpu.iff1 = true;
+                e128.cpu.iff2 = true;
+                e128.cpu.im = im;
+                sweep.push(("sna", sna48(&e48), false, vec![0, 19, 20, 23, 24, 25]));
+                sweep.push(("sna", sna128(&e128), true, vec![0, 19, 20, 23, 24, 25]));
+                let bz = szx(&e48, &SzxOpts::default());
+                let oz: Vec<usize> = szx_offsets(&bz).into_iter().filter(|o| (8 + 8 + 20..8 + 8 + 37).contains(o)).collect();
+                sweep.push(("szx", bz, false, oz));
+            }
             let tp = tap_bytes(&[good_block(0, &r.bytes(17)), good_block(0xFF, &r.bytes(30))]);
             sweep.push(("tap", tp, false, vec![0, 1, 2, 3, 21, 22, 23]));
             for (kind, bytes, m128, offs) in sweep {
